@@ -236,13 +236,15 @@ def run(ctx, eng):
     ]
     for hn, meth, want in passes:
         fh = m.func(H + hn)
-        okp = False
+        okp = None
         for p in eng.I.run(fh):
             for e in p.events:
                 if e.kind == 'call' and any(str(n) == S + meth
                                             for n in e.names):
-                    okp = [cm.show0(a) for a in e.args] == want
-        ctx.ob('FLOW.wire', fh.qual, '%s(%s)' % (meth, ', '.join(want)), okp,
+                    okp = okp is not False and \
+                        [cm.show0(a) for a in e.args] == want
+        ctx.ob('FLOW.wire', fh.qual, '%s(%s)' % (meth, ', '.join(want)),
+               bool(okp),
                'handler hands the frame\'s fields to the stream',
                node=fh.node)
     # DATA and GOAWAY events
@@ -258,16 +260,17 @@ def run(ctx, eng):
     ctx.ob('FLOW.wire', fr.qual, 'DataReceived fields', okd,
            'data and flow_controlled_length of the frame', node=fr.node)
     fg = m.func(H + '_receive_goaway_frame')
-    okg = False
+    okg = None
     for p in cm.normal_paths(eng.I.run(fg)):
         evs = [e for e in p.events if e.kind == 'new' and
                e.cls == 'ConnectionTerminated']
         if len(evs) == 1:
             f = p.state.objs.get(evs[0].obj, {})
-            okg = cm.show0(f.get('last_stream_id', T.NONE)) == \
+            okg = okg is not False and \
+                cm.show0(f.get('last_stream_id', T.NONE)) == \
                 'frame.last_stream_id' and 'frame.error_code' in cm.show0(
                     f.get('error_code', T.NONE))
-    ctx.ob('FLOW.wire', fg.qual, 'ConnectionTerminated fields', okg,
+    ctx.ob('FLOW.wire', fg.qual, 'ConnectionTerminated fields', bool(okg),
            'error_code, last_stream_id of the frame', node=fg.node)
     fc = m.func(H + 'close_connection')
     okc = False
